@@ -1457,23 +1457,32 @@ def _t3_side_condition(ctx, key, edges, sites):
         guarded = guarded and n_reach > 0
         arg = site_ad.args[0] if site_ad.args else None
         fn_a = ctx.prog.by_path[a.split(":")[0]].functions[a.split(":")[1]]
-        opened = False
-        if isinstance(arg, ast.Name):
-            for node in own_nodes(fn_a):
-                if isinstance(node, ast.Assign) and any(isinstance(t2, ast.Name) and t2.id == arg.id for t2 in node.targets) \
-                        and isinstance(node.value, ast.Call) and isinstance(node.value.func, ast.Name):
-                    if node.value.func.id == "open":
-                        opened = True
-                    else:
-                        r = ctx.prog.resolve(fn_a._module, node.value.func.id)
-                        if r and r[0] == "func":
-                            rets = [x for x in own_nodes(r[1]) if isinstance(x, ast.Return) and x.value is not None]
-                            if rets and all(isinstance(x.value, ast.Call) and norm(x.value.func) == "open" for x in rets):
-                                opened = True
-                            elif rets and all(isinstance(x.value, ast.Name) for x in rets):
-                                ds = [a for a in own_nodes(r[1]) if isinstance(a, ast.Assign) and norm(a.targets[0]) == rets[0].value.id]
-                                if ds and all(isinstance(a.value, ast.Call) and norm(a.value.func) == "open" for a in ds):
-                                    opened = True
+        # the value handed to the recursive call, as a term on every path that makes the call: an opened file (not a path string)
+        opened, n_call = True, 0
+        from .util import evaluator as _evt
+        for p in run_paths(ctx, fn_a, rule="T3", limit=8000):
+            for c, e, st in calls_on(p):
+                if c is site_ad:
+                    n_call += 1
+                    k_ = _evt(ctx, fn_a, e).ev(arg).key() if arg is not None else ""
+                    if not k_.startswith("open("):
+                        # one level of helper: a function of the module whose every return is an open(...) call
+                        ok_h = False
+                        if isinstance(arg, ast.Call) and isinstance(arg.func, ast.Name):
+                            r = ctx.prog.resolve(fn_a._module, arg.func.id)
+                            if r and r[0] == "func":
+                                hp = [q for q in run_paths(ctx, r[1], rule="T3") if q.end == "return"]
+                                ok_h = bool(hp) and all(q.ret is not None and q.ret.key().startswith("open(") for q in hp)
+                        elif isinstance(arg, ast.Name):
+                            v_ = e.get(arg.id)
+                            if v_ is not None and "(" in v_.key():
+                                hn = v_.key().split("(")[0]
+                                r = ctx.prog.resolve(fn_a._module, hn) if hn.isidentifier() else None
+                                if r and r[0] == "func":
+                                    hp = [q for q in run_paths(ctx, r[1], rule="T3") if q.end == "return"]
+                                    ok_h = bool(hp) and all(q.ret is not None and q.ret.key().startswith("open(") for q in hp)
+                        opened = opened and ok_h
+        opened = opened and n_call > 0
         if guarded and opened:
             return True, ""
         return False, "cue-sheet recursion is no longer bounded: the text branch is not guarded by isinstance(file, str) or the recursive call does not pass an opened stream"
